@@ -107,7 +107,7 @@ def main():
         det.update(out["detection"])
         meta.update({"id": name, "property": pid, "demo_placement": out["demo"], "demo_cmd": out["demo_cmd"],
                      "confirmed_by_orchestrator": out["verify"], "confirmed": ok, "detection": det,
-                     "rpc_package": prev.get("rpc_package", "queued")})
+                     "rpc_package": prev.get("rpc_package", "not run: rpc TestConsensus is not part of the pinned suite (BASELINE.json lists it as flaky)")})
         json.dump(meta, open(os.path.join(dst, "meta.json"), "w"), indent=1)
         for f in glob.glob(os.path.join(d, "*")):
             if os.path.isfile(f) and os.path.basename(f) != "meta.json" and os.path.getsize(f) < 400000 and not f.endswith(".log"):
